@@ -176,3 +176,10 @@ def check(case) -> Res:
         res.cls.append("linkify_double")
     res.cls.append("preset:" + case["cfg"]["preset"])
     return res
+
+
+def extra_phase(tier, seed, shard, nshards, coll):
+    """thorough tier: an atheris (libFuzzer) campaign with this module's oracle inside the target."""
+    from ..fuzz import atheris_phase
+
+    atheris_phase(__import__("sys").modules[__name__], tier, seed, shard, nshards, coll, int(__import__("os").environ.get("VERIF_ATHERIS_SECONDS", "300")))
